@@ -103,6 +103,7 @@ class Module(object):
       raise AnalysisError('cannot parse %s: %s' % (relpath, e))
     # variables are identified by role, not by name (sa/roles.py)
     from sa import inline, roles
+    inline.undo_callable_aliases(relpath, self.tree, repo.role_notes)
     inline.undo_extract_method(relpath, self.tree, repo.role_notes,
                                lambda name: repo.mentioned_outside(relpath, name))
     roles.align(relpath, self.tree, repo.role_notes)
